@@ -2,6 +2,7 @@
 \* Texts {q1,q2,bad}, WrongHashes {x:rand}, map + LRU capacity 1..2, one
 \* malformed kind with and one without hash, one bad version; histories of any
 \* length sending at most 6 distinct <<hash,text>> pairs.
+\* Measured: 858832 distinct states, 54965251 generated, 3-5.5 min with 4 workers (loaded machine).
 SPECIFICATION Spec
 CONSTANTS
   Texts <- QTexts
@@ -16,5 +17,5 @@ CONSTANTS
   History = TRUE
 CONSTRAINT SentT
 INVARIANTS TypeOK Bound WasSent LruOK
-PROPERTY StepOK
+PROPERTIES ImplConforms ImplExtraOK
 CHECK_DEADLOCK FALSE
